@@ -15,8 +15,8 @@ TRUSTED = ['Coq 8.16.1 kernel (coqc), vm_compute in Examples only',
            'Go harness harness/pipe.go (protobuf wire re-parser, recording transport), bin/engine.py, bin/pipefam.py',
            'modelled, not verified: utils/pipe.go NetFlowPipe, decoders/netflow, producer/proto (NetFlow part)']
 ASSUMPTIONS = ['Model/Pipe.v corresponds to NetFlowPipe.DecodeFlow + ProtoProducer on all histories, as sampled by this run',
-               'full refinement to a map keyed by (exporter, version, domain, id) is proved as its ingredients '
-               '(key injectivity, latest-wins, other scopes untouched, exporter isolation, not-found), not as one theorem over histories']
+               'refinement theorem c06_refines_flat_map quantifies over histories of datagrams whose bytes are < 256 (every real datagram); '
+               'the expected outputs of generated histories are computed by the reference pipe (Spec/RefStore.v, flat map), mutants by the model pipe']
 STREAMS = [dict(name='hist', stream=0, n=dict(quick=250, thorough=5000), timeout=120.0)]
 
 
